@@ -90,7 +90,7 @@ def check_initial(item, acc):
         return run_sampler(ch, N, dict(burn_in_steps=burn, intermediate_steps=inter, seed=5), {}, n_samples, initial=(labels, edges))
 
     try:
-        for script, res, ch, pruned in acc.explore(run):
+        for script, res, ch, pruned in acc.explore(run, label=item):
             acc.evaluations += 1
             outs, sp, fac = res
             ws = dict(wit, script=list(script))
@@ -136,7 +136,7 @@ def check_sequences(item, acc):
         return run_sampler(ch, N, dict(burn_in_steps=burn, intermediate_steps=inter, seed=5), dict(deg_seq=np.array(deg_seq, dtype=float), dim_seq=dict(dim_seq)), 1)
 
     try:
-        for script, res, ch, pruned in acc.explore(run, horizon=80):
+        for script, res, ch, pruned in acc.explore(run, label=item, horizon=80):
             acc.evaluations += 1
             if pruned:
                 acc.count("pruned-horizon")
@@ -196,7 +196,7 @@ def check_model(item, acc):
 
     seen = set()
     try:
-        for script, res, ch, pruned in acc.explore(run, horizon=60, max_dev=2):
+        for script, res, ch, pruned in acc.explore(run, label=item, horizon=60, max_dev=2):
             acc.evaluations += 1
             if pruned:
                 acc.count("pruned-horizon")
@@ -265,11 +265,13 @@ def items(tier):
         inits = mix2[::3] + non2[::6] + mix3[::60]
         step_cfgs = [(0, 0, 1), (1, 0, 1), (0, 1, 1), (1, 1, 1), (0, 1, 2)]
     else:
-        inits = mix2 + non2[::2] + mix3[::8]
-        step_cfgs = [(0, 0, 1), (1, 0, 1), (0, 1, 1), (1, 1, 1), (0, 1, 2), (1, 2, 1), (0, 2, 2)]
+        inits = mix2[::2] + non2[::4] + mix3[::30]
+        step_cfgs = [(0, 0, 1), (1, 0, 1), (0, 1, 1), (1, 1, 1), (0, 1, 2), (1, 2, 1)]
     for es in inits:
         for burn, inter, ns in step_cfgs:
             if tier == "quick" and ((len(es) == 3 and burn + inter * ns > 1) or (ns == 2 and (es not in inits[::5] or not set(es[0]) & set(es[1])))):
+                continue
+            if tier != "quick" and ((len(es) == 3 and burn + inter * ns > 2) or (burn + inter * ns > 2 and not set(es[0]) & set(es[1]))):
                 continue
             yield ("init", (labels, es, burn, inter, ns, 4))
     yield ("init", (("a", "b", "c", "d", "e"), (("a", "b"), ("c", "d", "e")), 1, 1, 1, 5))
@@ -290,10 +292,12 @@ def items(tier):
                 for burn, inter in ((0, 0), (0, 1)) if tier == "quick" else ((0, 0), (0, 1), (1, 1)):
                     if tier == "quick" and inter and n2 + n3 == 3 and deg == (2, 2, 2, 2):
                         continue  # 3e4 executions: thorough tier only
+                    if burn and inter and n2 + n3 == 3:
+                        continue  # two chain steps on three hyperedges: > 1.5e5 executions in a single shard
                     yield ("seq", (deg, dim, burn, inter, 4))
     for N in (4, 5):
         for exact in (True, False):
-            if N == 4 or tier != "quick":
+            if N == 4 or (tier != "quick" and exact):
                 yield ("model", (N, 3, exact, 0, 1))
         for seed in (0, 1, 2):
             yield ("seed", (N, seed, "model"))
@@ -312,7 +316,7 @@ def run(ctx):
     its = list(items(ctx.tier))
     k = ctx.jobs * 8
     shards = [its[i::k] for i in range(k)]
-    ev, nt, oc = run_e4(ctx, [it for s in shards for it in s], worker, nchunks=k, budget=8000000 if ctx.tier == "quick" else 160000000, config_cap=20000 if ctx.tier == "quick" else 400000)
+    ev, nt, oc = run_e4(ctx, [it for s in shards for it in s], worker, nchunks=k, budget=8000000 if ctx.tier == "quick" else 80000000, config_cap=20000 if ctx.tier == "quick" else 150000)
     kinds = Counter(kd for kd, _ in its)
     ctx.part("inputs", executions=ev, **dict(kinds))
     if not ctx.violations:
